@@ -81,8 +81,12 @@ def domains(draw):
             a, b = _narrow(draw) if draw(st.integers(0, 3)) == 0 else sorted([float(_dec(draw)), float(_dec(draw))])
             lo = {"$float": repr(a)}
             hi = {"$float": repr(b)}
-            if draw(st.integers(0, 5)) == 0:          # int/float mixed bounds
+            mixed = draw(st.integers(0, 7))
+            if mixed == 0:          # int/float mixed bounds
                 lo = int(a) if int(a) <= b else lo
+            elif mixed == 1:        # float low, int high
+                import math as _m
+                hi = int(_m.ceil(b)) + 1
             ranges.append([lo, hi])
     return {"elements": elements, "ranges": ranges, "kind": kind}
 
